@@ -206,6 +206,7 @@ Inst(x, c) ==
                      ELSE <<[k |-> "pi", name |-> x.name, v |-> ItemsText(items, 1)]>>
     [] x.i = "if" -> LET v == Eval(x.test, c) IN
                      IF Bad(v) THEN BadItem(v.t) ELSE IF ToBool(v) THEN InstSeq(x.body, 1, c) ELSE <<>>
+    [] x.i = "extfb" -> InstSeq(x.body, 1, c)       \* an extension element that is not available: "perform fallback for the element" (15) - its xsl:fallback children, a scope of their own
     [] x.i = "choose" ->
          LET RECURSIVE Pick(_)
              Pick(j) == IF j > Len(x.whens) THEN InstSeq(x.otherwise, 1, c)
